@@ -1,11 +1,11 @@
 #!/bin/bash
 # usage: try_patch_wt.sh <Cseed-id e.g. C09> <k> <check id> — applies /tmp/mut/<id>.out/patch<k>.diff in the scratch worktree
 # /tmp/mut/<id>, runs the check against THAT tree (VERIF_REPO), reverts.  /repo is not touched.
-ID="$1"; K="$2"; CHK="$3"
+ID="$1"; K="$2"; CHK="$3"; TIER="${4:-quick}"
 cd /tmp/mut/$ID || exit 9
 git checkout -q -- . ; git apply /tmp/mut/$ID.out/patch$K.diff || { echo "patch does not apply"; exit 9; }
 cd /verif
-VERIF_REPO=/tmp/mut/$ID ./check "$CHK" --tier quick > /tmp/try_patch.$ID.$K.out 2>&1
+VERIF_REPO=/tmp/mut/$ID ./check "$CHK" --tier $TIER > /tmp/try_patch.$ID.$K.out 2>&1
 RC=$?
 cd /tmp/mut/$ID && git checkout -q -- .
 echo "check exit=$RC"
